@@ -18,7 +18,7 @@ import itertools
 from .. import boot  # noqa: F401
 from .. import gen, tx as T
 from .. import refmodel as R
-from ..findings import frozen_static_outcome
+from .. import frozen
 from ..observe import pin
 from ..prog import Program
 
@@ -201,11 +201,9 @@ def check_case(spec, res):
         if not _agree(obs, exp):
             finding = None
             if exp[0] == "amb" and obs[0] == "win":
-                fro = frozen_static_outcome(methods, call, env)
+                fro = frozen.outcome(methods, call, env)
                 if fro is not None and tuple(fro) == tuple(obs):
                     finding = "F1"
-            if finding is None:
-                finding = _f3(methods, call, env, obs)
             res.violation("call-vs-model", [obs[0], exp[0]], spec,
                           observed={"call": callname, "outcome": obs}, acceptable=exp, finding=finding)
         # (c) resolve() names the same method (positional calls only: resolve takes no keywords)
@@ -227,24 +225,6 @@ def check_case(spec, res):
                                      sorted((k["n"], T.tname(k["t"]), k["req"]) for k in m.get("kw", [])),
                                      m.get("prio", 0)] for m in methods)])
     prog.close()
-
-
-def _f3(methods, call, env, obs):
-    """Defect model of F3: when the call omits an optional positional of the generated entry point,
-    the branch taken forgets every keyword - the call is resolved and executed as if no keyword had
-    been supplied."""
-    if not call["kw"] or len(call["pos"]) >= max(len(m["pos"]) for m in methods):
-        return None
-    c2 = {"pos": call["pos"], "kw": {}}
-    ideal = R.resolve(methods, c2, env)
-    fro = frozen_static_outcome(methods, c2, env)
-    for pred in (ideal, fro):
-        if pred is None or pred == R.WILD:
-            continue
-        p = ("amb",) if pred[0] == "amb" else tuple(pred)
-        if p == tuple(obs):
-            return "F3"
-    return None
 
 
 def _obs(out):
